@@ -24,25 +24,30 @@ RE_ = "pandapipes.pf.result_extraction"
 P = "pandapipes.pipeflow"
 
 EXPLANATION = (
-    "The code paths that produce the NaN pattern and the failure are decided from the source: (R4.1) in "
-    "extract_results_active_pit the result column (PINIT/MDOTINIT for hydraulics) of all non-connected rows is set to "
-    "NaN before the active results are copied back, and the copied branch columns exclude FROM_NODE/TO_NODE (which "
-    "are renumbered in the active pit); (R4.2) the extract_results method of every component is summarised per "
-    "concrete class, fluid and mode by forward substitution; every store into a result table of a branch or "
-    "const-flow component must either be selected by an active-branch lookup (or, for const-flow elements, by "
-    "in_service & junction active) or be NaN-strict in MDOTINIT of the own rows, res_junction.p_bar must be strict in "
-    "PINIT; (R4.3) reduce_pit remaps FROM_NODE and TO_NODE through the same cumsum(nodes_connected)-1 and reduce_lookups "
-    "sets the index entries of inactive elements to -1 and rebuilds the from_to table in table-number order; (R4.4) "
-    "identify_active_nodes_branches raises PipeflowNotConverged under np.all(~nodes_connected) before storing the "
-    "lookups, pipeflow calls it before any stage, and the thermal stages re-identify before reducing; (R4.5) hydraulic "
-    "slacks are NODE_TYPE==P & connected, thermal slacks NODE_TYPE_T in {T, GE}, FLOW_RETURN_CONNECT branches are removed "
-    "before and re-admitted after the search only if both ends are connected and the branch is active, and its writers "
-    "are exactly FlowControl (control_active rows) and HeatConsumer; (R4.7) the adjacency concatenations of "
-    "_connectivity are pairwise aligned; (R4.9) valves attached to pipe ends share an internal node exactly when both reference columns (junction, pipe) agree "
-    "(row-wise np.unique over both from_to_node_cols of the et == 'pi' rows). (R4.8) the hooks that run on the reduced pit inside the Newton loop "
-    "(adaption_before/after_derivatives_*) read no element table of the net -- per-element data reaches them through the "
-    "pit or through get_component_array, which is reduced by the same active lookup. Not decided: the graph-search result itself and equality with the reduced "
-    "network (runtime).")
+    'The code paths that produce the NaN pattern and the failure are decided from the source: (R4.1) in '
+    'extract_results_active_pit the result column (PINIT/MDOTINIT for hydraulics) of all non-connected rows is set to NaN'
+    ' before the active results are copied back, and the copied branch columns exclude FROM_NODE/TO_NODE (which are '
+    'renumbered in the active pit); (R4.2) the extract_results method of every component is summarised per concrete '
+    'class, fluid and mode by forward substitution; every store into a result table of a branch or const-flow component '
+    'must either be selected by an active-branch lookup (or, for const-flow elements, by in_service & junction active) or'
+    ' be NaN-strict in MDOTINIT of the own rows, res_junction.p_bar must be strict in PINIT; (R4.3) reduce_pit remaps '
+    'FROM_NODE and TO_NODE through the same cumsum(nodes_connected)-1 and reduce_lookups sets the index entries of '
+    'inactive elements to -1 and rebuilds the from_to table in table-number order; (R4.4) identify_active_nodes_branches '
+    'raises PipeflowNotConverged under np.all(~nodes_connected) before storing the lookups, pipeflow calls it before any '
+    'stage, and the thermal stages re-identify before reducing; (R4.5) hydraulic slacks are NODE_TYPE==P & connected, '
+    'thermal slacks NODE_TYPE_T in {T, GE}, FLOW_RETURN_CONNECT branches are removed before and re-admitted after the '
+    'search only if both ends are connected and the branch is active, and its writers are exactly FlowControl '
+    '(control_active rows) and HeatConsumer; (R4.7) the adjacency concatenations of _connectivity are pairwise aligned; '
+    '(R4.9) valves attached to pipe ends share an internal node exactly when both reference columns (junction, pipe) '
+    "agree (row-wise np.unique over both from_to_node_cols of the et == 'pi' rows). (R4.8) the hooks that run on the "
+    'reduced pit inside the Newton loop (adaption_before/after_derivatives_*) read no element table of the net -- per-'
+    'element data reaches them through the pit or through get_component_array, which is reduced by the same active '
+    'lookup. (R4.10) every test of the calculation mode against a set of mode names (mode in [...], also ==/!= chains) in'
+    " result extraction, the component extract_results hooks and the active-lookup choice equals one of the solver's own "
+    "mode classes, which are read from pipeflow's dispatch: the modes that run a hydraulic stage, the modes that run a "
+    "thermal stage, or a single mode; a list that lost or gained a member (thermal results skipped in 'bidirectional') is"
+    ' reported with the list found. Not decided: the graph-search result itself and equality with the reduced network '
+    '(runtime).')
 ASSUMPTIONS = ["scipy.sparse.csgraph.breadth_first_order returns the nodes reachable from the start node",
                "numpy arithmetic propagates NaN", "transient=False"]
 TECHNIQUE = "per-class value numbering of extract_results with selector/NaN-strictness analysis; CFG dominance; structural agreement checks"
